@@ -28,12 +28,13 @@ MANIFEST = dict(
                "table theorems (every unit the property names is wrapped per item; every unwrapped leaf is a read or registered with a "
                "justification; no unrecognised shape; no unknown hook) are proved by computation over it. The sweep window "
                "(GetSliceStartEndForLiquidations + reset + slice expression, int64 wrap included) is proved in range when counter <= capacity "
-               "and offset+batch does not overflow. Refuted with witnesses and listed as known findings: V2 borrow sweep not wrapped per item, "
+               "and offset+batch does not overflow. The V2 borrow sweep, formerly not wrapped per item (C15-F1), is wrapped after fix C09-F3 and "
+               "its unit is now part of the proved table theorem and of the crash-point runs. Refuted with witnesses and listed as known findings: "
                "counter > capacity and offset+batch overflow make the unwrapped slice expression panic, missing liquidation params panic in the "
                "unwrapped prologue, window size 1 (C17). Tied to /repo by the regenerated table and by crash-point enumeration on the real hooks.",
     design_ref="DESIGN.md section 4 C15",
-    level_note="c15_units_wrapped_partial and c15_unwrapped_total_partial are partial: classes kf_C15_1 (V2 borrow unit) and kf_C15_3 (V2 surplus/debt "
-               "trigger, table only) are excluded; reads / single store writes / ibc send outside wraps are modelled as total. No axioms.",
+    level_note="c15_units_wrapped_partial and c15_unwrapped_total_partial are partial: class kf_C15_3 (V2 surplus/debt "
+               "trigger, table only) is excluded; reads / single store writes / ibc send outside wraps are modelled as total. No axioms.",
     technique="Coq proof (generic atomicity over a hook language + finite table by vm_compute/forallb_forall + arithmetic lemmas) + translated "
               "hook-shape table + crash-point enumeration against the real hooks",
 )
